@@ -5,6 +5,7 @@ import (
 	"go/constant"
 	"go/token"
 	"go/types"
+	"math/big"
 	"strings"
 
 	"golang.org/x/tools/go/ssa"
@@ -59,6 +60,7 @@ func ruleFloat(c *Ctx) {
 			c.Check(k == "100000000", "FLOAT", "scale-agreement", token.NoPos, "all float scalings use 1e8 (satoshis per coin)", "float scale constant is "+k+", expected 100000000")
 		}
 	}
+	ruleFloatRefusal(c)
 	c.MinInstances("FLOAT/conversions", nconv, 2)
 	c.MinInstances("FLOAT/scalings", nscale, 4)
 }
@@ -178,4 +180,211 @@ func siteWeight(p *Prog, fn *ssa.Function) int {
 		return 1
 	}
 	return n
+}
+
+// ruleFloatRefusal (C16, "for every representable amount"): a decoder that turns a float amount into
+// satoshis may refuse amounts, but none in 0..21e14 satoshis. Every path of a converting function that
+// ends in an error and tests the amount (the rounded value R, or the coin value V with R = round(V*1e8))
+// is evaluated on the in-range boundary amounts; the tests it makes on other quantities are left open.
+func ruleFloatRefusal(c *Ctx) {
+	maxSat := new(big.Rat).SetInt(new(big.Int).Mul(big.NewInt(21000000), big.NewInt(100000000)))
+	scale := new(big.Rat).SetInt64(100000000)
+	n := 0
+	for _, pk := range c.P.ScopePkgs() {
+		for _, fn := range pkgFunctions(c.P, pk.PkgPath) {
+			var conv *ssa.Convert
+			for _, b := range fn.Blocks {
+				for _, ins := range b.Instrs {
+					if x, ok := ins.(*ssa.Convert); ok && isFloatType(x.X.Type()) && isIntType(x.Type()) {
+						conv = x
+					}
+				}
+			}
+			if conv == nil {
+				continue
+			}
+			n += siteWeight(c.P, fn)
+			key := "refusal/" + funcName(fn)
+			paths, err := feasiblePaths(fn, 20000)
+			if err != nil {
+				c.Undecided("FLOAT", key, fn.Pos(), "cannot enumerate paths: "+err.Error())
+				continue
+			}
+			rT := newTermEnv().Term(conv.X)
+			rName, vName := atomName(rT), ""
+			if rT.K == "call" && strings.Contains(rT.Name, "math.Round") && len(rT.Args) == 1 && rT.Args[0].K == "bin" && rT.Args[0].Op == token.MUL {
+				for i, a := range rT.Args[0].Args {
+					if a.K == "const" {
+						vName = atomName(rT.Args[0].Args[1-i])
+					}
+				}
+			}
+			// representatives: the range's ends and their in-range neighbours, plus every in-range constant
+			// (and neighbours) the paths compare the amount with
+			reps := map[string]*big.Rat{}
+			addRep := func(r *big.Rat) {
+				for d := int64(-1); d <= 1; d++ {
+					x := new(big.Rat).Add(r, new(big.Rat).SetInt64(d))
+					if x.Sign() >= 0 && x.Cmp(maxSat) <= 0 && x.IsInt() {
+						reps[x.String()] = x
+					}
+				}
+			}
+			addRep(new(big.Rat))
+			addRep(maxSat)
+			var eval func(t *T, r *big.Rat) (*big.Rat, bool)
+			eval = func(t *T, r *big.Rat) (*big.Rat, bool) {
+				switch an := atomName(t); {
+				case an == rName:
+					return r, true
+				case vName != "" && an == vName:
+					return new(big.Rat).Quo(r, scale), true
+				}
+				switch t.K {
+				case "const":
+					if t.C != nil && (t.C.Kind() == constant.Int || t.C.Kind() == constant.Float) {
+						if x, ok := new(big.Rat).SetString(constant.ToFloat(t.C).ExactString()); ok {
+							return x, true
+						}
+					}
+				case "conv":
+					return eval(t.Args[0], r)
+				case "bin":
+					a, ok1 := eval(t.Args[0], r)
+					b, ok2 := eval(t.Args[1], r)
+					if !ok1 || !ok2 {
+						return nil, false
+					}
+					tv := func(v bool) (*big.Rat, bool) {
+						if v {
+							return big.NewRat(1, 1), true
+						}
+						return new(big.Rat), true
+					}
+					switch t.Op {
+					case token.ADD:
+						return new(big.Rat).Add(a, b), true
+					case token.SUB:
+						return new(big.Rat).Sub(a, b), true
+					case token.MUL:
+						return new(big.Rat).Mul(a, b), true
+					case token.QUO:
+						if b.Sign() != 0 {
+							return new(big.Rat).Quo(a, b), true
+						}
+					case token.LSS:
+						return tv(a.Cmp(b) < 0)
+					case token.LEQ:
+						return tv(a.Cmp(b) <= 0)
+					case token.GTR:
+						return tv(a.Cmp(b) > 0)
+					case token.GEQ:
+						return tv(a.Cmp(b) >= 0)
+					case token.EQL:
+						return tv(a.Cmp(b) == 0)
+					case token.NEQ:
+						return tv(a.Cmp(b) != 0)
+					}
+				case "un":
+					if t.Op == token.NOT {
+						if a, ok := eval(t.Args[0], r); ok {
+							if a.Sign() == 0 {
+								return big.NewRat(1, 1), true
+							}
+							return new(big.Rat), true
+						}
+					}
+				}
+				return nil, false
+			}
+			mentions := func(t *T) bool {
+				bt := map[string]*T{}
+				baseTerms(t, bt)
+				for _, b := range bt {
+					an := atomName(b)
+					if an == rName || (vName != "" && an == vName) || strings.Contains(an, rName) {
+						return true
+					}
+				}
+				return false
+			}
+			for _, p := range paths {
+				for _, cd := range p.Conds {
+					if mentions(cd.Cond) {
+						cs := map[string]*big.Int{}
+						collectConsts(cd.Cond, cs)
+						for _, v := range cs {
+							addRep(new(big.Rat).SetInt(v))
+						}
+						// float constants
+						var walk func(t *T)
+						walk = func(t *T) {
+							if t.K == "const" && t.C != nil && t.C.Kind() == constant.Float {
+								if x, ok := new(big.Rat).SetString(t.C.ExactString()); ok {
+									addRep(x)
+									addRep(new(big.Rat).Mul(x, scale))
+								}
+							}
+							for _, a := range t.Args {
+								walk(a)
+							}
+						}
+						walk(cd.Cond)
+					}
+				}
+			}
+			bad := ""
+			guarded := 0
+			for _, p := range paths {
+				if p.EndKind != "return" || p.Ret == nil {
+					continue
+				}
+				// an error result that is not nil on this path
+				refuses := false
+				for _, r := range p.Ret.Results {
+					if isErrorType(r.Type()) {
+						if rt := p.Env.Term(r); !(rt.K == "const" && rt.C == nil) {
+							refuses = true
+						}
+					}
+				}
+				if !refuses {
+					continue
+				}
+				tests := false
+				for _, cd := range p.Conds {
+					if mentions(cd.Cond) {
+						tests = true
+					}
+				}
+				if !tests {
+					continue
+				}
+				guarded++
+				for _, r := range reps {
+					holds := true
+					for _, cd := range p.Conds {
+						if !mentions(cd.Cond) {
+							continue
+						}
+						v, ok := eval(cd.Cond, r)
+						if !ok {
+							bad = "an error path tests the amount through " + shorten(atomName(cd.Cond), 100) + ", which is not a comparison with constants"
+							holds = false
+							break
+						}
+						if (v.Sign() != 0) != cd.Truth {
+							holds = false
+							break
+						}
+					}
+					if holds && bad == "" {
+						bad = fmt.Sprintf("%s refuses the representable amount of %s satoshis (path: %s)", funcName(fn), r.RatString(), shorten(p.CondString(), 160))
+					}
+				}
+			}
+			c.Check(bad == "", "FLOAT", key, conv.Pos(), fmt.Sprintf("no amount in 0..21e14 satoshis is refused (%d amount-guarded error paths, %d boundary amounts)", guarded, len(reps)), bad)
+		}
+	}
+	c.MinInstances("FLOAT/refusal", n, 2)
 }
